@@ -40,6 +40,18 @@ pub fn subs() -> Vec<Box<dyn AnySub>> {
             },
             check: check_plus_probe,
         }),
+        // (last: the log level is process-wide) completeness must not depend on whether anybody listens to the
+        // library's trace records; bodies beyond 1 KiB / 64 KiB included
+        Box::new(Sub {
+            name: "valid-with-trace-logging",
+            quick: 12_000,
+            thorough: 200_000,
+            strat: || plan(PlanOpts { logical: LogicalOpts { body_class: 1, ..LogicalOpts::default() }, ..PlanOpts::default() }),
+            check: |p, cc| {
+                exec::enable_log_capture();
+                exec::with_logs(|| check_plan(p, cc)).0.map_err(|f| if f.sig == "HARNESS" { f } else { Failure::new(&format!("{}:trace-logging", f.sig), f.msg) })
+            },
+        }),
     ]
 }
 
